@@ -43,7 +43,7 @@ STUB = ["choice of the running worker thread (baton scheduler, line events in mo
 ASSUMPTIONS = ["the eval'd equation lambdas and numpy/pandas run atomically between two pre-emption points",
                "double evaluation of an equation is allowed; a second VALUE for one (element, time) is not"]
 FAULT_KINDS = ["preemption"]
-PROBES = ["edit_after_dependant_read", "initial_value_edit", "preempted_between_check_and_store", "fresh_called_twice_for_one_time",
+PROBES = ["decimal_dt_race", "edit_after_dependant_read", "initial_value_edit", "preempted_between_check_and_store", "fresh_called_twice_for_one_time",
           "run_repeated", "scenario_reset_cache"]
 EXHAUSTIVE = {"quick": False, "thorough": False}
 
@@ -152,8 +152,9 @@ def generate(spec):
                 sched = {"kind": "random", "seed": rng.randrange(2**32), "p": rng.choice([0.02, 0.05, 0.2, 0.4])}
             else:
                 sched = {"kind": "pct", "seed": rng.randrange(2**32), "depth": rng.choice([1, 2, 3]), "est": rng.choice([60, 150, 300])}
-        return {"property": PROPERTY, "kind": "race", "equations": eqs, "steps": rng.choice([1, 2, 3]),
-                "dt": rng.choice([1.0, 1.0, 0.5]), "sched": sched}
+        dt = rng.choice([1.0, 1.0, 0.5, 0.1, 0.2])
+        return {"property": PROPERTY, "kind": "race", "equations": eqs, "steps": rng.choice([1, 2, 3]) if dt >= 0.5 else rng.choice([3, 4, 6]),
+                "dt": dt, "sched": sched}
     # edit history
     start = rng.choice([0.0, 1.0])
     dt = rng.choice([1.0, 0.5, 0.25])
@@ -224,6 +225,8 @@ def _execute_race(case):
     res.sim_units = sched.points
     res.sched = {"kind": "replay", "preemptions": sched.taken}
     res.interleaving = sched.interleaving_hash()
+    if dt in (0.1, 0.2):
+        res.probe("decimal_dt_race")
     line_switches = [e for e in log.of_kind("switch") if e[4] not in ("block", "finish", "deadlock")]
     if line_switches:
         res.fault("preemption", len(line_switches))
@@ -253,7 +256,7 @@ def _execute_race(case):
             t0, t1 = grid[i], grid[i + 1]
             if cols["s"].get(t1) is None or cols["s"].get(t0) is None:
                 continue
-            if abs((cols["s"][t1] - cols["s"][t0]) - dt * cols["r"][t0]) > 1e-9:
+            if abs((cols["s"][t1] - cols["s"][t0]) - dt * cols["r"][t0]) > 1e-9 * max(1.0, abs(cols["s"][t1])):
                 res.violate("C08.b-two-values-for-one-element-time", {"t": t0, "stock_increment": cols["s"][t1] - cols["s"][t0],
                                                                       "dt_times_r": dt * cols["r"][t0], "requested": eqs})
                 break
